@@ -143,6 +143,7 @@ type runner struct {
 	stuck    string
 
 	caller *manualCtx
+	free   bool // free-running: no gates, no hooks
 
 	// executor-side bookkeeping
 	base      int // bytes written before Do started
@@ -259,7 +260,9 @@ func (r *runner) recvCb(name string, id int) error {
 	r.mu.Unlock()
 	if n == r.sc.Cfg.Rcancel {
 		r.caller.fire(context.Canceled)
-		r.spinFor(r.gctxDead)
+		if !r.free {
+			r.spinFor(r.gctxDead)
+		}
 	}
 	if n == r.sc.Cfg.Rfail {
 		return errCallback
@@ -360,7 +363,7 @@ func (r *runner) onInput(ctx context.Context) error {
 			}
 		}
 	case "cancel":
-		if r.caller.fire(context.Canceled) {
+		if r.caller.fire(context.Canceled) && !r.free {
 			r.spinFor(r.gctxDead)
 		}
 	}
